@@ -504,6 +504,14 @@ func (p *parser) parseTypedDecl() *Decl {
 		Var:   &Var{token: p.cur, Name: varName},
 	}
 	p.advance() // advance past IDENT
+	if p.cur.TokenType() != lexer.COLON {
+		msg := fmt.Sprintf("invalid type declaration for %q: expected \":\", found %s", varName, p.cur.Format())
+		p.appendError(msg)
+		for !p.isAtEOL() {
+			p.advance() // skip the rest of the declaration line
+		}
+		return decl
+	}
 	p.advance() // advance past `:`
 	v := p.parseType()
 	if v == nil {
